@@ -3,6 +3,7 @@ package core
 import (
 	dsql "database/sql"
 	"fmt"
+	"net"
 	"time"
 
 	_ "github.com/go-sql-driver/mysql"
@@ -25,14 +26,19 @@ type Srv struct {
 func (e *Eng) StartServer() (*Srv, error) {
 	var lastErr error
 	for try := 0; try < 5; try++ {
-		port, err := sql.GetEmptyPort()
+		// Bind the listener ourselves on an ephemeral port and hand it to the server: probing for a free
+		// port and re-binding it with SO_REUSEPORT (what server.NewListener does) lets two servers of
+		// concurrent monitors end up on the same port and read each other's tables.
+		l, err := net.Listen("tcp", "127.0.0.1:0")
 		if err != nil {
 			lastErr = err
 			continue
 		}
-		cfg := server.Config{Protocol: "tcp", Address: fmt.Sprintf("127.0.0.1:%d", port)}
+		port := l.Addr().(*net.TCPAddr).Port
+		cfg := server.Config{Protocol: "tcp", Address: fmt.Sprintf("127.0.0.1:%d", port), Listener: l}
 		s, err := server.NewServer(cfg, e.E, sql.NewContext, memory.NewSessionBuilder(e.Pro), nil)
 		if err != nil {
+			l.Close()
 			lastErr = err
 			continue
 		}
